@@ -22,7 +22,7 @@ def run(m):
     f = os.path.join(d, os.path.basename(m["file"])); open(f, "w").write(new)
     env = dict(os.environ, VERIF_SCRATCH=os.path.join(d, "scratch"), VERIF_DIR=d + "/verif")
     os.makedirs(d + "/verif", exist_ok=True)
-    for sub in ("specs", "trusted", "known_findings.json"):
+    for sub in ("specs", "trusted", "harness", "known_findings.json"):
         if os.path.exists(os.path.join(VERIF, sub)):
             os.symlink(os.path.join(VERIF, sub), os.path.join(d, "verif", sub))
     cmd = [os.path.join(VERIF, "bin/govc"), "check", m["property"], "--overlay", m["file"] + "=" + f]
@@ -31,7 +31,7 @@ def run(m):
     out = p.stdout + p.stderr
     hit = [l for l in out.splitlines() if l.startswith("VIOLATION") and m["expect"] in l]
     if hit: return m, "CAUGHT", hit[0]
-    return m, "MISSED", out[-1500:]
+    return m, "MISSED", " | ".join([l for l in out.splitlines() if l.startswith(("VIOLATION","BROKEN","SUMMARY"))][:4])[:600]
 bad = 0
 with concurrent.futures.ThreadPoolExecutor(args.j) as ex:
     for m, status, info in ex.map(run, muts):
